@@ -1,8 +1,90 @@
-(* Prop_C46.v — the property theorems of C46 and nothing else. *)
+(* Prop_C46.v — the property theorems of C46 and nothing else.
+   `removed scan_fixed selected o w` is the ordered list of DISTDIR files `pclean dist` removes
+   (repaired code, fixes/C46-exclude-exists.patch); `selected` — which names the target-derived
+   regexes select — is universally quantified. *)
 From Coq Require Import List NArith ZArith Bool.
 Import ListNotations.
 From Verif Require Import Base.Val C46.Model_C46 C46.Spec_C46 C46.Proofs_C46.
 
-Theorem memN_In_tmp : forall x l, memN x l = true <-> In x l.
-Proof. exact memN_In. Qed.
-Print Assumptions memN_In_tmp.
+(* only DISTDIR files that pass the file filters and, when targets are in force, are selected
+   by the patterns of a package the targets match — whatever the scan policy *)
+Theorem removed_subset_targets_and_filters : forall scan selected o w f,
+  In f (removed scan selected o w) ->
+  In f (w_all w) /\ passes_filters o f /\
+  (targets_in_force o ->
+     selected (f_id f) = true /\ exists p, In p (w_repo w) /\ restrict_match o p = true).
+Proof. exact removed_subset_targets_and_filters_proof. Qed.
+Print Assumptions removed_subset_targets_and_filters.
+
+(* the four clauses *)
+Theorem never_removes_installed : forall scan selected o w f,
+  needed_installed o w (f_id f) -> ~ In f (removed scan selected o w).
+Proof. exact never_removes_installed_proof. Qed.
+Print Assumptions never_removes_installed.
+
+Theorem never_removes_existing : forall selected o w f,
+  needed_existing o w (f_id f) -> ~ In f (removed scan_fixed selected o w).
+Proof. exact never_removes_existing_proof. Qed.
+Print Assumptions never_removes_existing.
+
+Theorem never_removes_fetch_restricted : forall selected o w f,
+  needed_fetch_restricted o w (f_id f) -> ~ In f (removed scan_fixed selected o w).
+Proof. exact never_removes_fetch_restricted_proof. Qed.
+Print Assumptions never_removes_fetch_restricted.
+
+Theorem never_removes_excluded : forall scan selected o w f,
+  needed_excluded o w (f_id f) -> ~ In f (removed scan selected o w).
+Proof. exact never_removes_excluded_proof. Qed.
+Print Assumptions never_removes_excluded.
+
+Theorem never_needed : forall selected o w f,
+  needed o w (f_id f) -> ~ In f (removed scan_fixed selected o w).
+Proof. exact never_needed_proof. Qed.
+Print Assumptions never_needed.
+
+(* exactness: removed = DISTDIR files passing the filters, selected, and not protected *)
+Theorem removed_exact : forall selected o w f,
+  In f (removed scan_fixed selected o w) <->
+  In f (w_all w) /\ passes_filters o f /\ target_selected selected o w (f_id f)
+  /\ ~ protected o w (f_id f).
+Proof. exact removed_exact_proof. Qed.
+Print Assumptions removed_exact.
+
+(* the code before the repair (exists_dist scanned only without restrictions): the statement
+   is false; it holds outside the class "-E with targets/exclusions and without -f" *)
+Theorem old_exists_clause_refuted : ~ C46_full_statement scan_old.
+Proof. exact old_exists_clause_refuted_proof. Qed.
+Print Assumptions old_exists_clause_refuted.
+
+Theorem old_never_needed_partial : forall selected o w f,
+  old_known_class o = false ->
+  needed o w (f_id f) -> ~ In f (removed scan_old selected o w).
+Proof. exact old_never_needed_partial_proof. Qed.
+Print Assumptions old_never_needed_partial.
+
+(* the option glue: the parser loop yields the declarative reading of the command line
+   (last -x wins, targets accumulate, -m/-s are DIGITS UNIT quantities) *)
+Theorem parse_argv_spec : forall ts o, parse_argv ts = POk o -> spec_opts ts = Some o.
+Proof. exact parse_argv_spec_proof. Qed.
+Print Assumptions parse_argv_spec.
+
+Theorem parse_qty_sound : forall tbl s z, parse_qty tbl s = Some z -> qty_denotes tbl s z.
+Proof. exact parse_qty_sound_proof. Qed.
+Print Assumptions parse_qty_sound.
+
+(* command line to files left *)
+Theorem run_never_removes_needed : forall i o kept printed,
+  parse_argv (i_argv i) = POk o ->
+  outcome scan_fixed i = Some (kept, printed) ->
+  forall f, In f (w_all (i_world i)) -> needed o (i_world i) (f_id f) ->
+            In (f_id f) kept /\ ~ In (f_id f) printed.
+Proof. exact run_never_removes_needed_proof. Qed.
+Print Assumptions run_never_removes_needed.
+
+Theorem run_only_removes_selected : forall i o kept printed,
+  parse_argv (i_argv i) = POk o ->
+  outcome scan_fixed i = Some (kept, printed) ->
+  forall x, (In x (map f_id (w_all (i_world i))) /\ ~ In x kept) \/ In x printed ->
+  exists f, f_id f = x /\ In f (removed scan_fixed (fun y => memN y (i_sel i)) o (i_world i)).
+Proof. exact run_only_removes_selected_proof. Qed.
+Print Assumptions run_only_removes_selected.
